@@ -257,6 +257,8 @@ def judge_decode(pdu, data, tag, out, cov):
     case = {"k": "dec", "pdu": pdu, "data": data, "tag": tag}
     cov["evaluations"] += 1
     cov["dec_" + verdict[0]] += 1
+    if verdict[0] != "open":
+        cov["nontrivial_inputs"].add(hash((pdu, data)))
     got = n = None
     try:
         n = P.from_bytes(data)
@@ -265,7 +267,7 @@ def judge_decode(pdu, data, tag, out, cov):
         pass
     except BaseException as ex:
         out.append(("C17:%s:%s:raises-%s" % (pdu, tag, type(ex).__name__), case,
-                    "from_bytes() raised %s (%s) instead of DecodeError" % (type(ex).__name__, ex)))
+                    "from_bytes() raised %s instead of DecodeError" % root_cause(ex)))
         return
     if verdict[0] == "err":
         if got is not None:
@@ -301,7 +303,7 @@ def judge_decode(pdu, data, tag, out, cov):
         again = bytes(P.to_bytes())
     except BaseException as ex:
         out.append(("C17:%s:%s:reencode-raises-%s" % (pdu, tag, type(ex).__name__), case,
-                    "to_bytes() of the decoded content raised %s" % ex))
+                    "to_bytes() of the decoded content raised %s" % root_cause(ex)))
         return
     if again != canon:
         out.append(("C17:%s:%s:reencode" % (pdu, tag), case,
@@ -322,7 +324,7 @@ def judge_encode(pdu, vals, tag, out, cov):
         b = bytes(P.to_bytes())
     except BaseException as ex:
         out.append(("C17:%s:%s:encode-raises-%s" % (pdu, tag, type(ex).__name__), case,
-                    "to_bytes() raised %s: %s" % (type(ex).__name__, ex)))
+                    "to_bytes() raised %s" % root_cause(ex)))
         return exp
     if b != exp:
         out.append(("C17:%s:%s:encode-layout" % (pdu, tag), case,
@@ -378,6 +380,7 @@ def judge_msg(spec, out, cov):
     case = {"k": "msg", "spec": spec}
     cov["evaluations"] += 1
     cov["codec_datagrams"] += 1
+    cov["nontrivial_inputs"].add(hash(("msg",) + tuple(sorted(spec.items()))))
     if spec["cls"] == "tx":
         pdu = "v%dtx" % ver
         m = dm.TxMsg(fn=spec["fn"], tn=spec["tn"], ver=ver)
@@ -417,7 +420,7 @@ def judge_msg(spec, out, cov):
         d = bytes(m.gen_msg(legacy))
     except BaseException as ex:
         out.append(("C17:%s:codec-datagram:gen_msg-raises-%s" % (pdu, type(ex).__name__), case,
-                    "data_msg refused a message inside the protocol ranges: %s" % ex))
+                    "data_msg refused a message inside the protocol ranges: %s" % root_cause(ex)))
         return
     P = e["pdu"][pdu]
     try:
@@ -435,7 +438,7 @@ def judge_msg(spec, out, cov):
         return
     except BaseException as ex:
         out.append(("C17:%s:codec-datagram:raises-%s" % (pdu, type(ex).__name__), case,
-                    "from_bytes() raised %s on a datagram produced by data_msg" % type(ex).__name__))
+                    "from_bytes() raised %s on a datagram produced by data_msg" % root_cause(ex)))
         return
     dif = first_diff(exp, got)
     if dif:
@@ -449,7 +452,7 @@ def judge_msg(spec, out, cov):
         again = bytes(P.to_bytes())
     except BaseException as ex:
         again = None
-        out.append(("C17:%s:codec-datagram:reencode-raises-%s" % (pdu, type(ex).__name__), case, str(ex)))
+        out.append(("C17:%s:codec-datagram:reencode-raises-%s" % (pdu, type(ex).__name__), case, root_cause(ex)))
     if again is not None and again != d:
         out.append(("C17:%s:codec-datagram:reencode" % pdu, case,
                     "re-encoding differs from the data_msg datagram at offset %d" % diff_at(again, d)))
@@ -458,7 +461,7 @@ def judge_msg(spec, out, cov):
     try:
         b = bytes(P.to_bytes())
     except BaseException as ex:
-        out.append(("C17:%s:to-codec:encode-raises-%s" % (pdu, type(ex).__name__), case, str(ex)))
+        out.append(("C17:%s:to-codec:encode-raises-%s" % (pdu, type(ex).__name__), case, root_cause(ex)))
         return
     if b != d:
         out.append(("C17:%s:to-codec:octets" % pdu, case,
@@ -468,7 +471,7 @@ def judge_msg(spec, out, cov):
         m2.parse_msg(bytearray(b))
     except BaseException as ex:
         out.append(("C17:%s:to-codec:parse-raises-%s" % (pdu, type(ex).__name__), case,
-                    "data_msg rejected the definition's encoding: %s" % ex))
+                    "data_msg rejected the definition's encoding: %s" % root_cause(ex)))
         return
     bad = None
     if (m2.ver, m2.fn, m2.tn) != (ver, spec["fn"], spec["tn"]):
@@ -493,9 +496,11 @@ def judge_msg(spec, out, cov):
 
 
 def root_cause(ex):
+    """deterministic text for an exception chain (the codec's errors carry object reprs with addresses)"""
     while ex.__cause__ is not None:
         ex = ex.__cause__
-    return "%s(%s)" % (type(ex).__name__, ", ".join(str(a) for a in getattr(ex, "args", ())))
+    return "%s(%s)" % (type(ex).__name__, ", ".join(str(a) for a in getattr(ex, "args", ())
+                                                     if isinstance(a, (str, int, bytes))))
 
 
 def msg_specs(item, quick):
@@ -823,6 +828,7 @@ def new_cov():
     c.update(evaluations=0, codec_datagrams=0, enc=0, dec_ok=0, dec_err=0, dec_open=0, open_accepted=0,
              open_rejected=0)
     c["mts_octets"] = set()
+    c["nontrivial_inputs"] = set()
     return c
 
 
@@ -880,7 +886,7 @@ def run(ctx):
     for r in ctx.pmap(dispatch, items, chunksize=1):
         ctx.merge(r)
     c = ctx.cov
-    c["distinct_nontrivial"] = c.get("codec_datagrams", 0) + c.get("dec_ok", 0) + c.get("dec_err", 0)
+    c["distinct_nontrivial"] = len(c["nontrivial_inputs"])
     c["work_items"] = len(items)
     kfull = 3 if ctx.quick else 4
     c["rule"] = ("A: every valid v0/v1 message of the enumeration {Tx: ver x TN x FN x PWR boundary sets x 148/444 x 6 "
@@ -894,8 +900,9 @@ def run(ctx):
                  "PDU position (first, 1st and 2nd batched), every reserved bit set alone and together, all 16 version "
                  "nibbles, every truncation offset and 6 trailing-octet strings of %d base PDUs, and for v2 every "
                  "assignment of {13 legal MOD codes, NOPE} to the first PDU and 0..%d batched PDUs%s. Each case is "
-                 "compared with the layout reference (vlib.ref.trxd, vlib.ref.trxd_v2). non-trivial = codec datagrams "
-                 "+ decode cases the reference decides (ok or reject); cases the statement leaves open (MOD 111x, "
+                 "compared with the layout reference (vlib.ref.trxd, vlib.ref.trxd_v2). non-trivial = distinct codec "
+                 "messages + distinct (class, datagram) decode inputs the reference decides (accept or reject), "
+                 "counted over the whole run by hash; cases the statement leaves open (MOD 111x, "
                  "odd v0 lengths) are only required not to crash or misread"
                  % ("" if ctx.quick else " and TSC", sum(len(bases(p, ctx.quick)) for p in PDU_NAMES), kfull,
                     "" if ctx.quick else "; for 5..8 batched PDUs every code at every position over every uniform "
